@@ -24,6 +24,7 @@ CONST = """CONSTANTS
   MaxCount = %(maxc)d
   MaxFaults = %(faults)d
   W = %(W)d
+  MaxProc = %(maxp)d
   MaxOps = %(ops)d
   GenMode = "%(gen)s"
   Alphabet = "%(alpha)s"
@@ -59,16 +60,17 @@ def peers(n):
 
 
 def consts(c, **kw):
-    d = dict(N=c["N"], body=c["body"], peers=peers(c["peers"]), honest="", maxc=c["maxc"], faults=99, W=c["W"], ops=0,
+    d = dict(N=c["N"], body=c["body"], peers=peers(c["peers"]), honest="", maxc=c["maxc"], faults=99, W=c["W"], maxp=c.get("maxp", 2048), ops=0,
              gen="none", alpha="full", noops="FALSE")
     d.update(kw)
     return CONST % d
 
 
 # chain configurations: body code digit k from the right = body id of header k (0 = empty block; equal digits = equal bodies)
-CFG_A = dict(name="A", N=5, body=31201, W=3, peers=2, maxc=2)     # <<1,0,2,1,3>>
-CFG_B = dict(name="B", N=4, body=2011, W=2, peers=3, maxc=2)      # <<1,1,0,2>>  (two identical bodies in a row, tight window)
-CFG_C = dict(name="C", N=6, body=102304, W=4, peers=2, maxc=3)    # <<4,0,3,2,0,1>>
+# maxp = maxResultsProcess scaled below the window, so that more results can be complete than one Results call hands out
+CFG_A = dict(name="A", N=5, body=31201, W=3, maxp=2, peers=2, maxc=2)     # <<1,0,2,1,3>>
+CFG_B = dict(name="B", N=4, body=2011, W=2, maxp=1, peers=3, maxc=2)      # <<1,1,0,2>>  (two identical bodies in a row, tight window)
+CFG_C = dict(name="C", N=6, body=102304, W=4, maxp=2, peers=2, maxc=3)    # <<4,0,3,2,0,1>>
 
 
 def body_list(c):
@@ -77,7 +79,8 @@ def body_list(c):
 
 def cfg_of_init(init):
     body = sum(b * 10 ** k for k, b in enumerate(init["body"]))
-    return dict(name="R", N=init["n"], body=body, W=init["w"], peers=max(2, len(init.get("peers", []))), maxc=init.get("maxc", 2))
+    return dict(name="R", N=init["n"], body=body, W=init["w"], maxp=init.get("maxp", 2048), peers=max(2, len(init.get("peers", []))),
+                maxc=init.get("maxc", 2))
 
 
 def nontrivial(beh):
@@ -107,9 +110,9 @@ def design(ctx):
         if getattr(m, "zero_actions", None):
             ctx.cov["coverage_zero_actions"] = sorted(set(ctx.cov["coverage_zero_actions"]) | set(m.zero_actions))
     # liveness, unconstrained small configuration: p1 is honest, three faults
-    lcs = [dict(name="L", N=4, body=1201, W=2, peers=2, maxc=2)]
+    lcs = [dict(name="L", N=4, body=1201, W=2, maxp=1, peers=2, maxc=2)]
     if not quick:
-        lcs.append(dict(name="L3", N=4, body=1201, W=3, peers=3, maxc=2))
+        lcs.append(dict(name="L3", N=4, body=1201, W=3, maxp=2, peers=3, maxc=2))
     for lc in lcs:
         lv = ctx.tlc_must("DlQueue", L_CFG + consts(lc, honest='"p1"', faults=3), name="L_live_%s" % lc["name"], timeout=1500)
         violated = violated or lv.violated
@@ -219,7 +222,7 @@ def run(ctx):
                        "that holds a request fails it (bad delivery, cancel, expiry, revocation); distinct by JSON of the action sequence")
     ctx.assumptions += ["full sync (one component per block); headers are offered to Schedule in chain order, as processHeaders does",
                         "CancelBodies is only applied to the request a peer currently holds (fetchParts never calls it otherwise)",
-                        "result window of 2-4 slots (blockCacheItems is a variable); the memory-based throttle is not reachable with chains this small",
+                        "result window of 2-4 slots and a Results batch limit of 1-2 items (blockCacheItems and maxResultsProcess are variables, scaled by the verif constructor); the memory-based throttle is not reachable with chains this small",
                         "expiry is made deterministic by ageing fetchRequest.Time of the chosen request by two hours (timeout one hour)",
                         "bounded liveness: after every behaviour outstanding requests time out and a fresh honest peer reserves and delivers completely; the range must complete within 4N+8 rounds"]
     quick = ctx.quick
